@@ -18,6 +18,8 @@ func extra(cmd string, args []string) {
 		cmdSplitX(args)
 	case "gemhist":
 		cmdGemHist(args)
+	case "probes":
+		cmdProbes(args)
 	default:
 		fmt.Fprintln(os.Stderr, "unknown command", cmd)
 		os.Exit(2)
@@ -166,6 +168,85 @@ func cmdSplitX(args []string) {
 			}
 		}
 		emitSplit(w, rs)
+	}
+	must(w.Flush())
+	f.Close()
+}
+
+// probe contexts: each is (prefix, suffix) placed around the code point under test
+var probeCtx = [][2][]rune{
+	{{0x0D}, {}}, {{}, {0x0A}}, {{'a'}, {}}, {{}, {'a'}}, {{0x1100}, {}}, {{0x1161}, {}}, {{0x11A8}, {}}, {{}, {0x1161}}, {{}, {0x11A8}},
+	{{0x1F600, 0x200D}, {}}, {{}, {0x200D, 0x1F600}}, {{0x1F1E6}, {}}, {{}, {0x1F1E6}}, {{}, {0x0301}}, {{0x0600}, {}},
+	{{}, {0x0301, 0x200D, 0x1F600}}, {{0x1F600}, {0x200D, 0x1F600}}, {{0xAC00}, {}}, {{0xAC01}, {}}, {{0x1F1E6, 0x1F1E7}, {0x1F1E8}},
+}
+
+func probeSig(r rune) string {
+	var sb strings.Builder
+	for _, pc := range probeCtx {
+		rs := append(append(append([]rune{}, pc[0]...), r), pc[1]...)
+		for i := 0; i+1 < len(rs); i++ {
+			if rosed.VerifShouldBreakAfter(rs, i) {
+				sb.WriteByte('1')
+			} else {
+				sb.WriteByte('0')
+			}
+		}
+		ends := rosed.VerifSplit(rs)
+		sb.WriteString(strconv.Itoa(len(ends)))
+		sb.WriteByte('.')
+	}
+	return sb.String()
+}
+
+// cmdProbes prints, for every code point (and some out-of-range values), how it joins with the probe characters
+func cmdProbes(args []string) {
+	fs := flag.NewFlagSet("probes", flag.ExitOnError)
+	out := fs.String("out", "probes.txt", "output")
+	all := fs.Bool("all", false, "every code point (otherwise: every code point in a table, 16 around every class change, block ends, a random sample)")
+	seed := fs.Int64("seed", 1, "seed")
+	fs.Parse(args)
+	sel := make([]bool, 0x110000)
+	if *all {
+		for i := range sel {
+			sel[i] = true
+		}
+	} else {
+		prev := uint32(0)
+		for r := 0; r <= 0x10FFFF; r++ {
+			b := rosed.VerifClassBits(rune(r))
+			if b != 0 {
+				sel[r] = true
+			}
+			if b != prev || r%0x100 == 0 {
+				for k := r - 16; k <= r+16; k++ {
+					if k >= 0 && k <= 0x10FFFF {
+						sel[k] = true
+					}
+				}
+			}
+			prev = b
+		}
+		rr := rand.New(rand.NewSource(*seed))
+		for i := 0; i < 30000; i++ {
+			sel[rr.Intn(0x110000)] = true
+		}
+	}
+	f, err := os.Create(*out)
+	must(err)
+	w := bufio.NewWriter(f)
+	// the probe contexts themselves, for the model side
+	fmt.Fprintf(w, "CTX %d", len(probeCtx))
+	for _, pc := range probeCtx {
+		fmt.Fprintf(w, " %s %s", runesTok(pc[0]), runesTok(pc[1]))
+	}
+	fmt.Fprintln(w)
+	for r := rune(0); r <= 0x10FFFF; r++ {
+		if sel[r] {
+			fmt.Fprintf(w, "%d %s\n", r, probeSig(r))
+		}
+	}
+	for _, r := range []rune{-1, -2, -128, 0x110000, 0x110001, 0x7FFFFFFF, -0x80000000} {
+		fmt.Fprintf(w, "%d %s\n", r, probeSig(r))
 	}
 	must(w.Flush())
 	f.Close()
